@@ -245,6 +245,24 @@ pub fn run(ctx: &Ctx) -> i32 {
                 sources.push(Source::Solved(m, t));
             }
         }
+        // extreme ratios inside an infoset: one action at (what rounds to) probability one next to
+        // actions that are tiny but positive, and so must be listed
+        if let Some(first) = profs.first() {
+            for tiny in [1e-20, 5e-324] {
+                for lead in [0usize, 1] {
+                    let mut prof = first.clone();
+                    for pl in 0..2 {
+                        for probs in prof[pl].values_mut() {
+                            let len = probs.len();
+                            for (i, p) in probs.iter_mut().enumerate() {
+                                *p = if i == lead % len { 1.0 } else { tiny };
+                            }
+                        }
+                    }
+                    sources.push(Source::Grid(prof));
+                }
+            }
+        }
         let singles = infosets(tree).iter().flat_map(|i| i.iter()).filter(|d| d.actions.len() == 1).count();
         for (si, source) in sources.iter().enumerate() {
             check_case(ctx, tree, source);
